@@ -598,6 +598,20 @@ impl PoolMap {
         let tx = entry.transaction();
         let (ancestors, mut parents, cell_ref_parents) = self.get_tx_ancenstors(tx);
 
+        // a pooled transaction whose output this entry spends or references can not be evicted
+        // to make room for the entry: the entry would be left with an unknown out-point
+        let cell_ref_parents: HashSet<ProposalShortId> = {
+            let needed: HashSet<ProposalShortId> = tx
+                .input_pts_iter()
+                .chain(tx.cell_deps_iter().map(|dep| dep.out_point()))
+                .map(|pt| ProposalShortId::from_tx_hash(&pt.tx_hash()))
+                .collect();
+            cell_ref_parents
+                .into_iter()
+                .filter(|id| !needed.contains(id))
+                .collect()
+        };
+
         let mut ancestors_count = ancestors.len() + 1;
         let mut evicted = Default::default();
 
